@@ -73,9 +73,13 @@ func c11LintLoop(n int) {
 		c17Results = append(c17Results, res)
 		rs = append(rs, r)
 	}
+	strat := lint.MergeIfAny
+	if nondetBool() {
+		strat = lint.MergeIfAll
+	}
 	l := &linter{
 		analyzers: map[caseFoldedString]*lint.Analyzer{
-			makeCaseFoldedString("SA1000"): {Analyzer: &analysis.Analyzer{Name: "SA1000"}, Doc: &lint.RawDocumentation{}},
+			makeCaseFoldedString("SA1000"): {Analyzer: &analysis.Analyzer{Name: "SA1000"}, Doc: &lint.RawDocumentation{MergeIf: strat}},
 			makeCaseFoldedString("U1000"):  {Analyzer: &analysis.Analyzer{Name: "U1000"}, Doc: &lint.RawDocumentation{}},
 		},
 	}
@@ -87,6 +91,9 @@ func c11LintLoop(n int) {
 		for _, d := range out.Diagnostics {
 			if d.Category == cat && d.Message == msg {
 				k++
+				if cat == "SA1000" {
+					vassert(d.MergeIf == strat, "a problem carries the merge strategy its check documents")
+				}
 			}
 		}
 		return k
